@@ -78,6 +78,16 @@ def ls4(F, R):
                 for d in defs:
                     if pay(d) is not None and pay(d)[0] in ("c", "agg") and not has_sub(pay(d), lambda q: q[0] in ("arg", "var", "place", "call")):
                         problems.append("walk cursor set to a constant cluster %s" % tstr(d))
+                if arm == "Fat32":
+                    # a FAT32 directory - the root included - is a cluster chain: the walk ends (cursor := None) only on the
+                    # EndOfFile answer of next_cluster, not for a directory that happens to be the root
+                    for dd in fn.defs().get(cv, []):
+                        if dd[0] == "assign" and dd[1] in blocks:
+                            dv = fn.term_of_rvalue(dd[3], dd[1])
+                            if dv[0] == "agg" and dv[2] and dv[2].endswith("Option::None"):
+                                okn_, _ = guarded(fn, dd[1], lambda g: g.kind == "variant" and g.variant == "EndOfFile" and has_sub(g.term, lambda q: q[0] == "call" and q[1] and path_matches(q[1], "FatVolume::next_cluster")))
+                                if not okn_:
+                                    problems.append("the FAT32 walk ends (cursor := None) without next_cluster having answered EndOfFile: a root directory longer than one cluster is not searched to its end")
                 # continuation: cursor := Some(n) where n is the Ok payload of this next_cluster (possibly via a temp var)
                 # block start for the next round
                 # find cluster_to_block calls reached only on the Ok edge of this next_cluster call
@@ -91,6 +101,10 @@ def ls4(F, R):
                                 problems.append("after next_cluster returned Ok(n) the walk continues at cluster_to_block(%s) instead of the cluster n just read from the FAT" % tstr(a))
                 # error handling of this next_cluster: the Err edges other than EndOfFile must return
                 dest = t["dest"]["l"]
+            # the blocks of a cluster (of the fixed root) are enumerated by BlockIdx::range: an extent that cannot be read off is not
+            # accepted (a hand-written `while block < last` loop has been seen to leave out the last sector)
+            if not any(b3 in blocks and call_matches(t3, ("BlockIdx::range",)) for b3, t3 in fn.calls()):
+                problems.append("the %s walk does not enumerate its blocks with BlockIdx::range(..): the extent searched cannot be established" % arm)
             # block-start variable must only be (re)assigned, never advanced in place
             for b3, t3 in fn.calls():
                 if b3 in blocks and call_matches(t3, ("BlockIdx::range",)):
@@ -171,6 +185,15 @@ def ls4(F, R):
                         zs = tstr(z)
                         if not ("blocks_per_cluster" in zs or ("from_bytes" in zs and "root_entries_count" in zs and "0x20" in zs)):
                             problems.append("directory extent is %s, expected blocks_per_cluster or from_bytes(root_entries_count*32)" % zs)
+                        elif "root_entries_count" in zs:
+                            # the byte length is computed in 32 bits: the 16-bit entry count is widened *before* it is multiplied
+                            # (65535 * 32 does not fit 16 bits; a root of 2048+ entries would be cut short / overflow)
+                            for q in subterms(z):
+                                if q[0] == "bin" and q[1].replace("WithOverflow", "") == "Mul":
+                                    for o_ in (q[2], q[3]):
+                                        o0 = strip_refs(o_)
+                                        if o0[0] == "place" and last_field(o0) == "root_entries_count":
+                                            problems.append("root_entries_count * 32 is computed in 16-bit arithmetic (the count is not widened before the multiplication)")
             R.require(not problems, fn, key, "; ".join(sorted(set(problems))), fn.loc(ncs[0][0]), okdetail="walk skeleton ok (%d next_cluster site(s))" % len(ncs))
 
 
@@ -248,7 +271,34 @@ def ls5(F, R):
                 into_name = any(s2["k"] == "Assign" and s2["rv"]["k"] == "Aggregate" and s2["rv"].get("adt", "").endswith("ShortFileName") and any(strip_refs(fn.term_of_operand(o, b2)) == root_ for o in s2["rv"]["ops"]) for b2, i2, s2 in fn.stmts())
         okn = into_name and rng is not None and rng["$a"][:2] == ("c", 0) and rng["$b"][:2] == ("c", 11) and has_sub(src, lambda q: q[0] == "place" and "data" in [e for e in q[2] if isinstance(e, str)] and strip_refs(q[1])[:2] == ("arg", 1))
     extra = [fn.loc(b, i) for b, i, s in fn.stmts() if s["k"] == "Assign" and s["p"]["proj"] and "contents" in [e[2] for e in s["p"]["proj"] if e[0] == "field"] and any(e[0] in ("index", "constindex") for e in s["p"]["proj"])]
+    # ... nor hand the name bytes to anything else that could change them (`contents[..8].make_ascii_lowercase()`)
+    touching = [b for b, t in fn.calls() if not (callee_of(t) or "").endswith("copy_from_slice") and any(has_sub(fn.term_of_operand(a, b), lambda q: q[0] == "ref" and strip_refs(q)[0] == "place" and "contents" in [e for e in strip_refs(q)[2] if isinstance(e, str)] and not (strip_refs(strip_refs(q)[1])[:2] == ("arg", 1))) for a in t["args"] if a.get("k") in ("copy", "move"))
+                and (callee_of(t) or "").split("::")[-1] in ("index_mut", "iter_mut", "as_mut_slice", "as_mut", "fill", "make_ascii_lowercase", "make_ascii_uppercase", "swap", "reverse", "deref_mut", "get_mut", "split_at_mut", "chunks_mut", "chunks_exact_mut")]
+    extra = extra + [fn.loc(b) for b in touching]
     R.require(okn and not extra, fn, "name-verbatim", "get_entry must copy bytes 0..11 of the slot into the name unchanged and must not patch single name bytes afterwards (stores at %s): listing, lookup and the long-name checksum all work on the stored bytes" % extra, fn.loc(0))
+    # the other fields are the stored ones, unconditionally: size = file_size(), times = from_fat(date, time) of the write /
+    # creation fields, attributes = create_from_fat(raw_attr()), position = the two parameters
+    aggs = [(b, s2["rv"]) for b, i2, s2 in fn.stmts() if s2["k"] == "Assign" and s2["rv"]["k"] == "Aggregate" and s2["rv"].get("adt", "").endswith("DirEntry") and not s2["rv"].get("adt", "").endswith("OnDiskDirEntry")]
+    okf = len(aggs) == 1
+    why = "no single DirEntry literal"
+    if okf:
+        b_, rv_ = aggs[0]
+        fld = {n_: strip_refs(fn.term_of_operand(o_, b_)) for n_, o_ in zip(rv_.get("fields") or [], rv_["ops"])}
+        is_acc = lambda q, nm: q[0] == "call" and q[1] and q[1].endswith("OnDiskDirEntry::" + nm) and strip_refs(q[2][0])[:2] == ("arg", 1)
+        def is_time(q, d_, t_):
+            return q[0] == "call" and q[1] and q[1].endswith("Timestamp::from_fat") and len(q[2]) == 2 and is_acc(strip_refs(q[2][0]), d_) and is_acc(strip_refs(q[2][1]), t_)
+        checks = {
+            "size": lambda q: is_acc(q, "file_size"),
+            "mtime": lambda q: is_time(q, "write_date", "write_time"),
+            "ctime": lambda q: is_time(q, "create_date", "create_time"),
+            "attributes": lambda q: q[0] == "call" and q[1] and q[1].endswith("Attributes::create_from_fat") and is_acc(strip_refs(q[2][0]), "raw_attr"),
+            "entry_block": lambda q: q[:2] == ("arg", 3),
+            "entry_offset": lambda q: q[:2] == ("arg", 4),
+        }
+        bad_f = [k_ for k_, pr in checks.items() if k_ not in fld or not pr(fld[k_])]
+        okf = not bad_f
+        why = "field(s) %s are not the stored value: %s" % (bad_f, {k_: tstr(fld.get(k_, ("?",)))[:60] for k_ in bad_f})
+    R.require(okf, fn, "fields-verbatim", "get_entry must report size, times, attributes and position exactly as stored / given (%s)" % why, fn.loc(0))
     f32 = F.fn("OnDiskDirEntry::first_cluster_fat32")
     rets = [f32.term_of_rvalue(s["rv"], b) for b, i, s in f32.stmts() if s["k"] == "Assign" and s["p"]["l"] == 0 and not s["p"]["proj"]]
     pat = ("agg", "ClusterId", [("bin", "BitOr", ("bin", "Shl", ("call", "From::from", [("call", "first_cluster_hi", "_")]), ("c", 16)), ("call", "From::from", [("call", "first_cluster_lo", "_")]))])
